@@ -33,6 +33,8 @@ use std::path::PathBuf;
 pub mod cfg {
     /// WalRotator: true = rotate() fsyncs the writer it drops, a lost writer fails the next sync()
     pub const CODE_SYNCS_BEFORE_DROP: bool = true;
+    /// WalActor (Always mode): true = a SyncTick calls rotator.sync(); false = SyncTick is a no-op
+    pub const CODE_TICK_SYNCS: bool = false;
     /// WAL on-disk format: 2 = entry checksum over len|timestamp|data, empty entry rejected
     pub const CODE_WAL_FORMAT: u8 = 2;
     /// segment DeltaIterator: true = error when fewer records than record_count are present
